@@ -141,6 +141,19 @@ def pairs(seed, n):
          ("%p %I", "PM 03"), ("%H %p", "03 PM"), ("%Y %U %w", "2024 00 0"), ("%Y %U %w", "2024 00 6"), ("%Y %W %u", "2024 53 7"),
          ("%Y %U %u %m", "2024 10 3 12"), ("%U %w", "10 3"), ("%E", "x"), ("%E1", "1"), ("%Ec", "Thu Jan  1 00:00:00 1970"), ("%O", "x"),
          ("%c", "Thu Jan  1 00:00:00 1970"), ("%x %X", "01/01/70 00:00:00"), ("%Q", "x"), ("%5Y", "02020")]
+    # long / awkward fractions (truncation, not rounding; more digits than femtoseconds; only a dot), whitespace forms,
+    # sign forms and literal matching around numeric fields
+    D += [("%E*S", "05.999999999999999"), ("%E*S", "05.9999999999999999"), ("%E*S", "05.99999999999999999999999999999999"),
+          ("%E*S", "59.000000000000000999"), ("%E*f", "9999999999999999"), ("%E*f", "000000000000000"), ("%E*f", "0000000000000001"),
+          ("%S.%E*f", "05.1"), ("%S.%E3f", "05.1234"), ("%E3S", "05.12"), ("%E3S", "05.123"), ("%E15S", "05.123456789012345"),
+          ("%E15S", "05.1234567890123456"), ("%H:%M:%E*S", "23:59:60.999"), ("%H:%M:%E*S", "23:59:61"), ("%H:%M:%E*S", "24:00:00"),
+          ("%Y-%m-%d %H", "2020-01-01\t\n 05"), ("%Y-%m-%d%H", "2020-01-0105"), ("%Y -%m", "2020-05"), ("%Y- %m", "2020-05"), ("%Y%%%m", "2020%05"),
+          ("%Y%n%m", "2020 05"), ("%Y%t%m", "202005"), ("%m/%d/%Y", "1/2/2020"), ("%m/%d/%Y", " 1/ 2/2020"), ("%d", "+5"), ("%H", "+7"), ("%M", "-0"),
+          ("%S", "+05"), ("%j", "366"), ("%Y %j", "2023 366"), ("%Y %j", "2024 366"), ("%Y %j", "2024 000"), ("%y", "69"), ("%y", "68"), ("%C%y", "2099"),
+          ("%G %V %u", "2020 53 7"), ("%s", "+5"), ("%s", " 5"), ("%s", "5 "), ("%s%z", "5+0100"), ("%Ez", "+00:00"), ("%Ez", "-00:00"), ("%Ez", "+24:00"),
+          ("%Ez", "+23:59"), ("%Ez", "-23:59"), ("%z", "+2359"), ("%z", "+2400"), ("%z", "+9959"), ("%E*z", "+23:59:59"), ("%E*z", "-00:00:01"),
+          ("%E*z", "+00:00:60"), ("%::z", "+00:60:00"), ("%z %z", "+0100 -0100"), ("%Y %Y", "2020 2021"), ("%H %H", "05 06"), ("%S %s", "05 77"),
+          ("%Z %z", "UTC +0100"), ("%z %Z", "+0100 PST"), ("%Z", "Europe/Paris"), ("%Z", "A B")]
     out += [(a.encode(), b.encode()) for a, b in D]
     for _ in range(n // 10):     # unstructured pairs
         f = bytes(r.choice(b"%%%EYmdHMSzs:*4 -fT") for _ in range(r.randrange(0, 8)))
